@@ -265,7 +265,48 @@ func c02Run(w *kernel.Worker, j *c02Job, rep *kernel.Report) (*Fail, error) {
 		}
 		return &Fail{FP: fp, What: what}, nil
 	}
-	idx, err := LoadDataset(w, "c02x", ds.Events, j.Layout, rep)
+	var idx string
+	var err error
+	pqs := strings.HasPrefix(j.Layout.Name, "pqs-")
+	if pqs {
+		// persistent-query layouts: the first event makes a segment of its own; then the left atom and its AND/OR
+		// pairs are run twice against the index (which is how a filter becomes a tracked persistent query); the
+		// segment that takes the remaining events evaluates the tracked filters while ingesting (a second evaluator
+		// of the same filters) and its answers are served from those bitsets (pqs-open: unrotated, pqs-rotated: from
+		// the pqmr files). All oracles below apply unchanged.
+		if err = w.Call("clearpqs", nil, nil); err == nil {
+			err = setTun(w, "pqs", 1)
+		}
+		defer func() { _ = setTun(w, "pqs", 0); _ = w.Call("clearpqs", nil, nil) }()
+		if err == nil {
+			idx, err = LoadDataset(w, "c02x", ds.Events[:1], Layout{"", []int{2}}, rep)
+		}
+		if err == nil {
+			L := atoms[j.Atom]
+			reg := []Q{{Index: idx, Text: L.Text, Start: T0 - 10, End: T0 + 1000, Size: 1000}}
+			for _, r := range atoms {
+				reg = append(reg, Q{Index: idx, Text: L.Text + " AND " + r.Text, Start: T0 - 10, End: T0 + 1000, Size: 1000},
+					Q{Index: idx, Text: L.Text + " OR " + r.Text, Start: T0 - 10, End: T0 + 1000, Size: 1000})
+			}
+			for rpt := 0; rpt < 2 && err == nil; rpt++ {
+				_, err = runQueries(w, reg)
+			}
+		}
+		for i := 1; i < len(ds.Events) && err == nil; i++ {
+			if err = ingestStep(w, 0, idx, []string{ds.Events[i]}); err != nil {
+				break
+			}
+			rep.Transition(1)
+			switch j.Layout.Bounds[i] {
+			case 1:
+				err = w.Call("flush", nil, nil)
+			case 2:
+				err = w.Call("rotate", nil, nil)
+			}
+		}
+	} else {
+		idx, err = LoadDataset(w, "c02x", ds.Events, j.Layout, rep)
+	}
 	if err != nil {
 		fp, what, herr := diedResult("C02", err)
 		if herr != nil {
@@ -364,11 +405,23 @@ func c02Run(w *kernel.Worker, j *c02Job, rep *kernel.Report) (*Fail, error) {
 	// literal's type) NOT is the complement; for absent / other-typed values the statement fixes nothing.
 	la := sets[fmt.Sprintf("atom:%d", j.Atom)]
 	appl := func(a *c02Atom, k int) bool { return c02Applicable(a, model[k]) }
-	checkNot := func(form, text string, got map[string]bool, excl func(id string) bool, mustIn func(k int) bool, as ...*c02Atom) {
+	setOf := map[string]map[string]bool{}
+	for i := range atoms {
+		setOf[atoms[i].Text] = sets[fmt.Sprintf("atom:%d", i)]
+	}
+	// neg: how many of the trailing atoms of as stand under the negation
+	checkNot := func(form, text string, got map[string]bool, excl func(id string) bool, mustIn func(k int) bool, neg int, as ...*c02Atom) {
 		for k := range model {
 			id := fmt.Sprintf("e%d", k)
 			if got[id] && excl(id) {
-				fs.Add("C02/algebra/"+c02Causes(model, j.Layout, as...)+"/"+form+"-overlap",
+				cause := c02Causes(model, j.Layout, as...)
+				for _, a := range as[len(as)-neg:] {
+					// the event is in the result of a negated free-text term: one root cause whatever the block kinds are
+					if a.Col == "" && setOf[a.Text][id] {
+						cause = "negated-free-text"
+					}
+				}
+				fs.Add("C02/algebra/"+cause+"/"+form+"-overlap",
 					fmt.Sprintf("%s: event %s is returned although it is also in the result of the negated expression; got %s", ctx(text), id, setStr(got)))
 			}
 			if !got[id] && mustIn(k) {
@@ -378,7 +431,7 @@ func c02Run(w *kernel.Worker, j *c02Job, rep *kernel.Report) (*Fail, error) {
 		}
 	}
 	checkNot("not", "NOT "+L.Text, sets["not"], func(id string) bool { return la[id] },
-		func(k int) bool { return appl(&L, k) && !la[fmt.Sprintf("e%d", k)] }, &L)
+		func(k int) bool { return appl(&L, k) && !la[fmt.Sprintf("e%d", k)] }, 1, &L)
 	for i := range atoms {
 		ra := sets[fmt.Sprintf("atom:%d", i)]
 		and, or := map[string]bool{}, map[string]bool{}
@@ -412,13 +465,13 @@ func c02Run(w *kernel.Worker, j *c02Job, rep *kernel.Report) (*Fail, error) {
 		Rp := &atoms[i]
 		checkNot("andnot", L.Text+" AND NOT "+R.Text, sets[fmt.Sprintf("andnot:%d", i)],
 			func(id string) bool { return ra[id] || !la[id] },
-			func(k int) bool { id := fmt.Sprintf("e%d", k); return la[id] && appl(Rp, k) && !ra[id] }, &L, Rp)
+			func(k int) bool { id := fmt.Sprintf("e%d", k); return la[id] && appl(Rp, k) && !ra[id] }, 1, &L, Rp)
 		checkNot("nor", "NOT ("+L.Text+" OR "+R.Text+")", sets[fmt.Sprintf("nor:%d", i)],
 			func(id string) bool { return ra[id] || la[id] },
 			func(k int) bool {
 				id := fmt.Sprintf("e%d", k)
 				return appl(&L, k) && appl(Rp, k) && !la[id] && !ra[id]
-			}, &L, Rp)
+			}, 2, &L, Rp)
 	}
 	// (iii) search ≡ where on numeric fields
 	if L.Where != "" {
@@ -578,7 +631,7 @@ func c02AtomClass(a *c02Atom, m *MEvent) string {
 func C02() int {
 	rep := kernel.NewReport("C02", "exploration")
 	rep.Rule = "every atom, NOT atom, and A AND B / A OR B / A AND NOT B / NOT (A OR B) for all ordered atom pairs, each also under every " +
-		"time range with bounds on/next to event timestamps, × 5 datasets (mixed, ints, floats, strings, strings with regex metacharacters) × 5 layouts × cardinality limits; " +
+		"time range with bounds on/next to event timestamps, × 5 datasets (mixed, ints, floats, strings, strings with regex metacharacters) × 7 layouts (5 flush/rotation placements; 2 with the filters registered as persistent queries before the segment is written, unrotated and rotated) × cardinality limits; " +
 		"oracles: reference model where defined, set algebra on observed id sets, search≡where on numeric fields, range restriction. " +
 		"non-trivial = (dataset, expression) whose result is neither empty nor everything"
 	rep.Assume = []string{"model is three-valued: string-vs-number coercions, != on absent fields, substring-but-not-word free text are left undefined (no stance)",
@@ -592,7 +645,12 @@ func C02() int {
 				cards = []int{0, 2, 501}
 			}
 			for _, ds := range c02Datasets() {
-				for _, lay := range StdLayouts(len(ds.Events)) {
+				n := len(ds.Events)
+				lays := StdLayouts(n)
+				po, pr := make([]int, n), make([]int, n)
+				po[0], pr[0], po[n-1], pr[n-1] = 2, 2, 1, 2
+				lays = append(lays, Layout{"pqs-open", po}, Layout{"pqs-rotated", pr})
+				for _, lay := range lays {
 					for _, c := range cards {
 						for i := range atoms {
 							emit(c02Job{Dataset: ds.Name, Layout: lay, Card: c, Atom: i, Tier: rep.Tier})
@@ -602,7 +660,7 @@ func C02() int {
 			}
 			rep.Bounds["atoms"] = len(atoms)
 			rep.Bounds["datasets"] = len(c02Datasets())
-			rep.Bounds["layouts"] = 5
+			rep.Bounds["layouts"] = 7
 			rep.Bounds["cardLimits"] = cards
 		},
 		Run:        c02Run,
